@@ -11,7 +11,7 @@
    operations under any schedule.  The theorems hold for EVERY program family accepted by the
    boolean [wf_prog]; that the service's own code is such a family is [C12_blockrelay_wf], computed
    against the graph the translator extracts from the source on every run. *)
-From Verif Require Import Lib.Base Lib.Sched Lib.Lockset Model.C12_ConfigLock Proofs.C12 Proofs.C12_Data Proofs.C12_ReadOnly Gen.C17_Extracted.
+From Verif Require Import Lib.Base Lib.Sched Lib.Lockset Model.C12_ConfigLock Proofs.C12 Proofs.C12_Data Proofs.C12_ReadOnly Proofs.C12_NoAccount Gen.C17_Extracted.
 
 (* ------------------------------------------------------------------------------------------- *)
 (* 1. Keeps the last good configuration                                                         *)
@@ -458,4 +458,49 @@ Example C12_ex_burst_behind_writer :
      Spawn (ex_sp KLookup 1 FErr); Spawn (ex_sp KAuction 2 FErr); Spawn (ex_sp KLookup 3 FErr); Spawn (ex_sp KReg 0 FErr);
      Release 0]
   = ([(true, RNoRelays); (true, RDone); (true, RFee 1); (true, RFee 1); (true, RErr); (true, RDone)], true, Some ex_d1).
+Proof. vm_compute. reflexivity. Qed.
+
+(* ------------------------------------------------------------------------------------------- *)
+(* 19. Requests made without an account                                                         *)
+
+(* The account argument of Service.ProposerConfig is legitimately nil for requests made on behalf of
+   validators Vouch holds no account for: BuilderBid -> immediateBuilderBid -> auctionBlock(..., nil),
+   ValidatorRegistrations forwarded by beacon nodes, UnblindBlock's provider lookup.  For these kinds
+   (a) the program takes the read lock once and releases it, writes nothing, and has no point at which
+   the account could hold the request (there is no account to ask); (b) whatever the configuration,
+   the request is answered: a value or an error, never nothing; (c) the missing account does not
+   change the answer; (d) when the configuration makes the validator's settings unresolvable the
+   answer is the error (a forwarded registration is skipped).  Being programs of [request_kinds] and
+   kinds of [is_reader_kind], they are covered by theorems 5, 15, 16 and 18 as well.  That the CODE
+   answers so -- in particular that the error path does not dereference the absent account -- is
+   checked by the harness (account-less requests against every configuration state; a request that
+   panics is [c_panics], which P_b forbids). *)
+Theorem C12_accountless_requests :
+  (forall (pre : bool) (sp : spawn), accountless (sp_kind sp) = true ->
+      ~ In MGate (program pre sp) /\ ~ In MWrite (program pre sp) /\
+      filter is_lock_mstep (program pre sp) = [MRLock; MRUnlock]) /\
+  (forall (k : kind) (c : cfgstate) (v : N), accountless k = true -> answer_of k c v <> RAny) /\
+  (forall (c : cfgstate) (v : N),
+      answer_of KLookupNA c v = answer_of KLookup c v /\ answer_of KBid c v = answer_of KAuction c v) /\
+  (forall (k : kind) (d : doc) (v : N), accountless k = true -> is_bad d v = true ->
+      answer_of k (Some d) v = match k with KFwd => RNoRelays | _ => RErr end).
+Proof.
+  split; [exact accountless_program|]. split; [exact accountless_answered|].
+  split; [exact accountless_same_answer|exact accountless_unresolvable].
+Qed.
+Print Assumptions C12_accountless_requests.
+
+(* a document that makes validator 3 unresolvable, then the four account-less requests for validator 3
+   (error, error, skipped, error) and for validator 1 (answered from the document); then a failing
+   refresh and the same again: everything returns, the lock is free *)
+Example C12_ex_accountless :
+  predict false true None
+    [Spawn (ex_sp KRefresh 0 (FOk ex_d1));
+     Spawn (ex_sp KLookupNA 3 FErr); Spawn (ex_sp KBid 3 FErr); Spawn (ex_sp KFwd 3 FErr); Spawn (ex_sp KUnblind 3 FErr);
+     Spawn (ex_sp KLookupNA 1 FErr); Spawn (ex_sp KBid 1 FErr); Spawn (ex_sp KFwd 1 FErr); Spawn (ex_sp KUnblind 1 FErr);
+     Spawn (ex_sp KRefresh 0 FMalformed); Spawn (ex_sp KBid 3 FErr)]
+  = ([(true, RDone); (true, RErr); (true, RErr); (true, RNoRelays); (true, RErr);
+      (true, RFee 1); (true, if d_relay ex_d1 then RFee 1 else RNoRelays);
+      (true, if d_relay ex_d1 then RDone else RNoRelays); (true, RNoRelays);
+      (true, RDone); (true, RErr)], true, Some ex_d1).
 Proof. vm_compute. reflexivity. Qed.
